@@ -261,7 +261,11 @@ class Conts:
             n = seq_len(recv)
             pos = If(idx.t < 0, n + idx.t, idx.t) if not z3.is_int_value(k) else (n + k.as_long() if k.as_long() < 0 else idx.t)
             ex.raise_if(st, Not(And(0 <= pos, pos < n)), 'IndexError')
-            return CV(seq_at(recv, pos))
+            el = seq_at(recv, pos)
+            if recv.kind == 'cv':
+                ex.use('axiom:containers are finite trees - an element is strictly less deep than its container')
+                ex.fact(Implies(And(0 <= pos, pos < n), And(DEPTHV(el) < DEPTHV(recv.t), DEPTHV(el) >= 0)))
+            return CV(el)
         if recv.kind == 'setlist' and idx.kind == 'int':
             ex.use('axiom:list(s)[0] is a member of the non-empty set s')
             r = fresh_int('member')
@@ -298,4 +302,216 @@ class Conts:
     def fresh_like(self, ex, st, name, v):
         if v.kind == 'cv':
             return fresh_cv(name)
+        return NotImplemented
+
+
+# ================================================================================================ container lifting (loops._wrapped)
+from z3 import DeclareSort, substitute
+Args = DeclareSort('Args')                 # a tuple of positional companions
+Kw = DeclareSort('Kw')                     # a dict of keyword companions
+ALEN = Function('alen', Args, IntSort())
+AAT = Function('aat', Args, IntSort(), Val)
+KWHAS = Function('kwhas', Kw, Val, BoolSort())
+KWGET = Function('kwget', Kw, Val, Val)
+TYPEOFV = Function('typeofv', Val, IntSort())
+INTYPES = Function('in_types', IntSort(), BoolSort())      # type(x) in self.types
+ISINSTV = Function('isinst_types', Val, BoolSort())        # isinstance(x, self.types)
+DHAS = Function('dhas', Val, Val, BoolSort())              # key in d
+DGET = Function('dget', Val, Val, Val)                     # d[key]
+SK = Function('sorted_keys', Val, L)                       # sorted(d.keys()) as an abstract list
+DEPTHV = Function('depthv', Val, IntSort())
+IBI = Function('item_by_i', Val, IntSort(), IntSort(), Val)
+IBK = Function('item_by_key', Val, Val, L, Val)
+WRAP = Function('wrapped', Val, Args, Kw, Val)
+APPLY = Function('apply_function', Val, Args, Kw, Val)
+
+
+def seq_type(sv):
+    """class identity of a sequence view"""
+    if sv.kind == 'cv':
+        return TYPEOFV(sv.t)
+    if sv.kind in ('mapped', 'dictmapped'):
+        return sv.typ
+    raise OutOfSubset('type of %s' % sv.kind)
+
+
+class Lift:
+    """what loops._wrapped, _item_by_i and _item_by_key need beyond Conts: dict values, `type(x)(...)`, generator expressions and dict
+    comprehensions over companions, and the calls taken by contract (recorded in .calls for the contract module to state obligations on)."""
+
+    def __init__(self, by_contract=('_item_by_i', '_item_by_key', '_wrapped', 'function'), root=None):
+        self.by_contract = set(by_contract)
+        self.calls = []          # (name, state, argument SVs)
+        self.root = root
+
+    # -- abstraction of companion containers
+    def args_term(self, ex, st, sv):
+        if sv.kind == 'args':
+            return sv.t
+        if sv.kind in ('lazylist', 'cvs'):
+            A = Const(fresh_name('A'), Args)
+            j = Int(fresh_name('j!a'))
+            el = sv.at(st.fork(), j)
+            st.pc.append(And(ALEN(A) == sv.n, ForAll([j], Implies(And(0 <= j, j < sv.n), AAT(A, j) == val_of(el)))))
+            return A
+        raise OutOfSubset('positional companions of kind %s' % sv.kind)
+
+    def kw_term(self, ex, st, sv):
+        if sv.kind == 'kwmap':
+            return sv.t
+        if sv.kind == 'kwmapped':
+            K = Const(fresh_name('K'), Kw)
+            k = Const(fresh_name('k!kw'), Val)
+            st.pc.append(ForAll([k], And(KWHAS(K, k) == KWHAS(sv.src, k), Implies(KWHAS(sv.src, k), KWGET(K, k) == sv.fn(k)))))
+            return K
+        raise OutOfSubset('keyword companions of kind %s' % sv.kind)
+
+    # -- expressions
+    def expr(self, ex, st, e):
+        if isinstance(e, ast.GeneratorExp):
+            ex.use('axiom:a generator expression consumed once yields the elements of the corresponding list comprehension')
+            return ex.e_ListComp(st, e)
+        if isinstance(e, ast.DictComp) and len(e.generators) == 1 and not e.generators[0].ifs and isinstance(e.generators[0].iter, ast.Call) \
+                and isinstance(e.generators[0].iter.func, ast.Attribute) and e.generators[0].iter.func.attr in ('items', 'keys') and not e.generators[0].iter.args:
+            g = e.generators[0]
+            src = ex.eval(st, g.iter.func.value)
+            over_items = g.iter.func.attr == 'items'
+            if src.kind == 'kwmap' and over_items and isinstance(g.target, ast.Tuple) and len(g.target.elts) == 2 and isinstance(e.key, ast.Name) \
+                    and isinstance(g.target.elts[0], ast.Name) and e.key.id == g.target.elts[0].id:
+                kq = Const(fresh_name('kq'), Val)
+                sub = st.fork()
+                sub.pc.append(KWHAS(src.t, kq))
+                ex.assign(sub, g.target, T([CV(kq), CV(KWGET(src.t, kq))]), None)
+                v = ex.eval(sub, e.value)
+                st.pending.extend(sub.pending)
+                term = val_of(v)
+                ex.use('model:{k: f(v) for k, v in kwargs.items()} has the keys of kwargs and f(kwargs[k]) under k')
+                return SV('kwmapped', None, src=src.t, fn=lambda k, term=term, kq=kq: substitute(term, (kq, k)))
+            if src.kind == 'cv':
+                d = src.t
+                ex.use('model:a dict comprehension over d.keys() / d.items() keeps the keys of d in order')
+                closure = dict(st.env)
+
+                def value_at(st2, j, d=d):
+                    sub = st2.fork(); sub.env = dict(closure); sub.pending = []
+                    key = CV(VA(SEQ(d), j))
+                    sub.pc.append(Implies(And(0 <= j, j < LEN(SEQ(d))), DHAS(d, key.t)))
+                    ex.assign(sub, g.target, T([key, CV(DGET(d, key.t))]) if over_items else key, None)
+                    kv = ex.eval(sub, e.key)
+                    v = ex.eval(sub, e.value)
+                    st2.pc = sub.pc
+                    return kv, v, sub.pending
+                return SV('dictmap', None, src=d, n=LEN(SEQ(d)), at=value_at)
+        return NotImplemented
+
+    def attr(self, ex, st, e, recv, name):
+        if recv.kind == 'obj' and name == 'types':
+            return SV('typeset')
+        return NotImplemented
+
+    def pre_call(self, ex, st, e):
+        f = e.func
+        if isinstance(f, ast.Name) and f.id == 'isinstance' and len(e.args) == 2 and ast.unparse(e.args[1]) == 'self.types':
+            v = ex.eval(st, e.args[0])
+            if v.kind == 'cv':
+                ex.use('model:isinstance(x, self.types) is a predicate of x; type(x) in self.types implies it')
+                ex.fact(Implies(INTYPES(TYPEOFV(v.t)), ISINSTV(v.t)))
+                ex.use('path precondition: the types a function is lifted over are list, tuple, dict and dict subclasses - an instance that is not a dict is a list or a tuple')
+                ex.fact(Implies(And(ISINSTV(v.t), TAG(v.t) != T_DICT), Or(TAG(v.t) == T_LIST, TAG(v.t) == T_TUPLE)))
+                return B(ISINSTV(v.t))
+        if isinstance(f, ast.Attribute) and isinstance(f.value, ast.Name) and f.value.id == 'self' and f.attr == 'function' and 'function' in self.by_contract:
+            pos, star, kws, dstar = [], None, {}, None
+            for a in e.args:
+                if isinstance(a, ast.Starred):
+                    star = ex.eval(st, a.value)
+                else:
+                    pos.append(ex.eval(st, a))
+            for kw in e.keywords:
+                if kw.arg is None:
+                    dstar = ex.eval(st, kw.value)
+                else:
+                    kws[kw.arg] = ex.eval(st, kw.value)
+            if len(pos) != 1 or star is None or dstar is None or kws:
+                raise OutOfSubset('call of self.function with an unexpected argument shape')
+            A, K = self.args_term(ex, st, star), self.kw_term(ex, st, dstar)
+            self.calls.append(('function', st.fork(), dict(arg=pos[0], args=star, kwargs=dstar, A=A, K=K)))
+            ex.use('the lifted function is an uninterpreted function of (first argument, positional companions, keyword companions)')
+            return CV(APPLY(val_of(pos[0]), A, K))
+        return NotImplemented
+
+    def call(self, ex, st, e, fname, args, kwargs):
+        if fname == 'type' and len(args) == 1 and args[0].kind == 'cv':
+            return SV('typeof', TYPEOFV(args[0].t), of=args[0])
+        if fname in ('is_df', 'is_array', 'is_series', 'is_ts', 'is_pd', 'is_arr') and len(args) == 1:
+            ex.use('path precondition: no value is a pandas / numpy object')
+            return B(False)
+        if fname == 'sorted' and len(args) == 1 and args[0].kind == 'keysview':
+            return SV('sortedkeys', SK(args[0].d))
+        if fname == '_item_by_i' and fname in self.by_contract and len(args) == 3 and args[0].kind == 'cv' and args[1].kind == 'int' and args[2].kind == 'int':
+            self.calls.append((fname, st.fork(), dict(value=args[0], i=args[1], n=args[2])))
+            ex.use('contract:_item_by_i (C19._item_by_i.* obligations)')
+            return CV(IBI(args[0].t, args[1].t, args[2].t))
+        if fname == '_item_by_key' and fname in self.by_contract and 3 <= len(args) <= 4 and args[0].kind == 'cv' and args[2].kind == 'sortedkeys':
+            if len(args) == 4 and args[3].kind != 'none':
+                raise OutOfSubset('_item_by_key with a positional index')
+            self.calls.append((fname, st.fork(), dict(value=args[0], key=args[1], keys=args[2])))
+            ex.use('contract:_item_by_key (C19._item_by_key.* obligations)')
+            return CV(IBK(args[0].t, val_of(args[1]), args[2].t))
+        return NotImplemented
+
+    def call_value(self, ex, st, e, fn, args, kwargs):
+        if fn.kind == 'typeof' and len(args) == 1 and not kwargs and args[0].kind in ('lazylist', 'dictmap'):
+            ex.use('axiom:type(x)(elements) builds a container of the class of x from the elements, in order (list, tuple, dict and dict subclasses)')
+            a = args[0]
+            if a.kind == 'lazylist':
+                return SV('mapped', None, typ=fn.t, tagterm=TAG(fn.of.t), n=a.n, at=a.at)
+            return SV('dictmapped', None, typ=fn.t, src=a.src, n=a.n, at=a.at)
+        return NotImplemented
+
+    def method(self, ex, st, e, recv, mname, args, kwargs):
+        if recv.kind == 'cv' and mname in ('keys', 'items') and not args:
+            ex.oblige(st, 'dict_method.receiver_is_a_dict', TAG(recv.t) == T_DICT, kind='pre')
+            return SV('keysview', None, d=recv.t, items=(mname == 'items'))
+        if recv.kind == 'kwmap' and mname == 'pop' and len(args) == 2 and args[0].kind == 'str':
+            ex.use("path precondition: the keyword '%s' is not among the keyword companions (it addresses pandas / numpy axes)" % args[0].lit)
+            return args[1]
+        if recv.kind == 'kwmap' and mname == 'items' and not args:
+            return SV('kwitems', None, src=recv.t)
+        if recv.kind == 'obj' and mname == '_wrapped' and '_wrapped' in self.by_contract and len(args) == 3 and not kwargs:
+            x = args[0]
+            A, K = self.args_term(ex, st, args[1]), self.kw_term(ex, st, args[2])
+            if self.root is not None:
+                ex.oblige(st, 'call._wrapped.measure_decreases', And(DEPTHV(val_of(x)) < DEPTHV(self.root), DEPTHV(val_of(x)) >= 0), kind='variant')
+            self.calls.append(('_wrapped', st.fork(), dict(arg=x, args=args[1], kwargs=args[2], A=A, K=K)))
+            ex.use("recursion: loops._wrapped on an element is taken by the function's own contract (structural induction on the nesting depth)")
+            return CV(WRAP(val_of(x), A, K))
+        return NotImplemented
+
+    def compare(self, ex, st, e, op, a, b):
+        if op in ('In', 'NotIn') and a.kind == 'typeof' and b.kind == 'typeset':
+            r = INTYPES(a.t)
+            return r if op == 'In' else Not(r)
+        if op in ('Eq', 'NotEq') and a.kind == 'sortedkeys' and b.kind == 'sortedkeys':
+            ex.use('model:two sorted key lists are equal iff they are the same abstract list; dicts with equal sorted key lists have the same keys')
+            return (a.t == b.t) if op == 'Eq' else (a.t != b.t)
+        return NotImplemented
+
+    def iterate(self, ex, st, it):
+        if it.kind == 'keysview' and not it.items:
+            d = it.d
+            return LEN(SEQ(d)), (lambda st2, j: CV(VA(SEQ(d), j)))
+        return NotImplemented
+
+    def subscript(self, ex, st, e, recv, idx):
+        if recv.kind == 'cv' and idx.kind == 'cv':
+            ex.raise_if(st, Not(DHAS(recv.t, idx.t)), 'KeyError')
+            c = DGET(recv.t, idx.t)
+            ex.use('axiom:containers are finite trees - an element is strictly less deep than its container')
+            ex.fact(Implies(DHAS(recv.t, idx.t), And(DEPTHV(c) < DEPTHV(recv.t), DEPTHV(c) >= 0)))
+            return CV(c)
+        return NotImplemented
+
+    def is_none(self, ex, st, v):
+        if v.kind in ('mapped', 'dictmapped', 'kwmap', 'args', 'typeset', 'obj', 'sortedkeys'):
+            return BoolVal(False)
         return NotImplemented
